@@ -72,11 +72,20 @@ def run(tier):
         pass
     trees = [T.random_tree(r, r.randint(1, 8), names=vocab, p_branch=0.45) for _ in range(n)]
     items = []
+    prefixed = {}
     for t in trees:
         present = sorted(set(t.residues()))
         qs = r.sample(present, min(3, len(present))) + r.sample(["Glc", "Gal", "Man", "Fuc", "GlcNAc", "Galf", "Neu5Ac", "Glcp", "Gal a", "Fruf", "Ara", "Xyl", "Glc6S", "GlcN"], 3)
+        # the residue's own and the opposite D-/L- series, spelled out
+        for nm in r.sample(present, min(2, len(present))):
+            if not nm.startswith(("D-", "L-")):
+                qs += ["D-" + nm, "L-" + nm]
+                prefixed.update({"D-" + nm: nm, "L-" + nm: nm})
         items.append({"iupac": T.render(t), "queries": sorted(set(qs)), "self": True, "subchains": subchains(t)})
     outs = C.run_impl_parallel("queries", items, extra={"tmp": os.path.join(C.BUILD, "tmp_c16")})
+    # stand-alone molecules of the prefixed queries and of the residues they are derived from
+    alone_names = sorted(set(prefixed) | set(prefixed.values()))
+    alone = {nm: o["smiles"] for nm, o in zip(alone_names, chem.convert_all(alone_names))}
     nq = 0
     for t, it, o in zip(trees, items, outs):
         txt = it["iupac"]
@@ -117,6 +126,9 @@ def run(tier):
                                  "replay_cmd": "./check C16 --replay <this file>"})
                 if not (c_every <= c_some <= c_none):
                     spelled = "ring-or-anomer-in-query" if re.search(r"(p|f| a| b|a|b)$", q) and q not in vocab else "plain-query"
+                    if q in prefixed:
+                        a, b = alone.get(q), alone.get(prefixed[q])
+                        spelled = "config-prefix-same-molecule" if a and b and orc.same(a, b) else "config-prefix-different-molecule"
                     report.fail({"site": "count", "kind": "not-monotone", "query_spelling": spelled},
                                 {"glycan": txt, "query": q, "scope": scope, "none_some_every": [c_none, c_some, c_every],
                                  "problem": "stricter functional-group matching found more"})
@@ -139,7 +151,7 @@ def run(tier):
                     {"no_failing_input": True, "what_no_longer_checks": broken, "theorems": names_thm})
     report.assumptions = ["A-networkx: DiGraphMatcher enumerates the embeddings for multi-residue queries (only 'at least one' is checked for self and sub-chains)",
                           "formula / atoms / bonds / rings of summary() are compared with Spec/Chem functions of the Coq reading of the returned SMILES (rings = cyclomatic number)"]
-    extra = {"rule": "random glycans (1-8 residues) x single-residue queries from the glycan's own residues and from the library x {none, some, every} x {nodes, leaves, root}; the glycan with itself and with its own sub-chains; summary(); save_dot",
+    extra = {"rule": "random glycans (1-8 residues) x single-residue queries from the glycan's own residues (also with the D-/L- series spelled out, own and opposite) and from the library x {none, some, every} x {nodes, leaves, root}; the glycan with itself and with its own sub-chains; summary(); save_dot",
              "single_residue_queries": nq, "print_assumptions": res.assumptions.get(f"Props/{PROP}.v", "").strip().splitlines()[-5:]}
     return report.finish("proof", ob, dis, names_thm, trusted=C.TRUSTED, extra=extra)
 
